@@ -285,7 +285,7 @@ def part_generated(ctx, examples, profile):
 PARTS = {"generated": part_generated}
 REPLAY = {"generated": check_case}
 KNOWN = {}
-FLOORS = {"nontrivial": ("", 0.08), "interleaved schedule": ("", 0.4)}
+FLOORS = {"nontrivial": ("", 0.08), "interleaved schedule": ("", 0.2)}
 
 
 def plan(tier, seed):
